@@ -3,7 +3,7 @@
    sequence of p_ functions called is a rightmost derivation in reverse.
    Model: theories/LR.v; generic proofs: LRProofs.v; per-run obligations over gen/GenLR.v
    (validator + ranking by vm_compute): LRConcrete.v. *)
-From Coq Require Import List Arith Bool.
+From Coq Require Import String List Arith Bool.
 From BP Require Import LR LRProofs LRConcrete LRFacts.
 From BPGen Require Import GenLR.
 Import ListNotations.
@@ -40,7 +40,7 @@ Print Assumptions C08_lr_accepted_documented.
 (* a syntax error cites the first token after a prefix that was consumed and correctly reduced *)
 Theorem C08_lr_error_prefix : forall fuel ts idx tok rs, lr_run tables fuel ts = SyntaxError idx tok rs ->
   (exists syms, sr grammar syms (firstn idx ts) rs) /\
-  (nth_error ts idx = Some tok \/ (idx = length ts /\ tok = eof)).
+  (nth_error ts idx = Some tok \/ (idx = List.length ts /\ tok = eof)).
 Proof. exact error_prefix. Qed.
 Print Assumptions C08_lr_error_prefix.
 
@@ -66,10 +66,10 @@ Print Assumptions C08_lr_expr_complete_partial.
 
 (* non-vacuity: a schema text's token sequence is accepted, with its reductions *)
 Example C08_lr_example :
-  exists rs, parse example_tokens = Accept rs /\ length rs = 47 /\
+  exists rs, parse example_tokens = Accept rs /\ List.length rs = 47 /\
              rm_check grammar start_symbol rs example_tokens = true.
 Proof. eexists. split; [vm_compute; reflexivity | split; vm_compute; reflexivity]. Qed.
 
 Example C08_lr_example_reject :
-  exists idx rs, parse example_bad = SyntaxError idx (term_id "CONST") rs /\ idx = 7.
+  exists idx rs, parse example_bad = SyntaxError idx (term_id "CONST"%string) rs /\ idx = 7.
 Proof. eexists. eexists. split; vm_compute; reflexivity. Qed.
